@@ -636,8 +636,15 @@ func (o opaqueHost) String() string { return string(o) }
 func (e *Engine) hostVal(st *State, t types.Type, v Value) (interface{}, bool) {
 	// types with methods would format through String()/Error(); only plain
 	// data is converted
-	if nt, ok := t.(*types.Named); ok && nt.NumMethods() > 0 {
-		return nil, false
+	// (a type whose method set has String/Error/Format/GoString is formatted
+	// through that method by fmt, which the host cannot call)
+	for _, tt := range []types.Type{t, types.NewPointer(t)} {
+		ms := types.NewMethodSet(tt)
+		for _, name := range []string{"String", "Error", "Format", "GoString"} {
+			if ms.Lookup(nil, name) != nil {
+				return nil, false
+			}
+		}
 	}
 	if pt, ok := t.(*types.Pointer); ok {
 		_ = pt
